@@ -204,6 +204,31 @@ def driver_inputs(case):
     return ([li] if li is not None else []) + all_inputs(case) + ([dict((k, v) for k, v in si.items() if k != "_lines")] if si else [])
 
 
+_LEFT = {}
+
+
+def mark_fragment(case, mos):
+    """A case whose translated expression applies an operation the driver's concrete `Ops` does not implement (it answers
+    NotImplemented: e.g. an f-string conversion of a string that needs escaping) leaves the fragment at run time:
+    it is then checked against the CPython oracle only, exactly like a case `exprtie.to_lean` rejects statically."""
+    e = split_mos(mos)[0]
+    left = False
+    if e is not None:
+        py, vis = e.get("py", {}), e.get("visit", {}).get("out")
+        left = py.get("exc") == "NotImplemented" or (isinstance(vis, dict) and vis.get("exc") == "NotImplemented")
+    if len(_LEFT) > 50000:
+        _LEFT.clear()
+    if left:
+        _LEFT[id(case)] = case
+    elif _LEFT.get(id(case)) is case:
+        del _LEFT[id(case)]
+    return left
+
+
+def left_fragment(case):
+    return _LEFT.get(id(case)) is case
+
+
 def split_mos(mos):
     """(the expr-domain output or None, the alltrace outputs in source order of the all(...) calls)"""
     expr = [m for m in (mos or []) if "py" in m]
@@ -227,9 +252,27 @@ def model_view(case, mos):
     return view
 
 
+def _unwrapped_ids(e, acc=None, under_fstring=False):
+    acc = set() if acc is None else acc
+    if isinstance(e, dict) and "k" in e:
+        k = e["k"]
+        if k in ("slice", "starred", "fvalue") or (k == "const" and under_fstring):
+            acc.add(e["id"])
+        for key, v in e.items():
+            if key in ("k", "id"):
+                continue
+            if k == "fvalue" and key == "spec" and isinstance(v, dict):
+                acc.add(v["id"])          # the format specification (itself a JoinedStr) is not wrapped either
+            _unwrapped_ids(v, acc, under_fstring=(k == "fstring" and key == "parts"))
+    elif isinstance(e, list):
+        for v in e:
+            _unwrapped_ids(v, acc, under_fstring)
+    return acc
+
+
 def _expr_view(case, mos):
     mo, _alls = split_mos(mos)
-    if mo is None:
+    if mo is None or mark_fragment(case, mos):
         return None
     li, objs = lean_input(case)
     ar = a_repr_of(case)
@@ -241,10 +284,13 @@ def _expr_view(case, mos):
 
     view = {}
     py = mo["py"]
+    # nodes the CPython oracle cannot wrap (a slice, a starred element, a formatted value, the constant pieces of an
+    # f-string are no expressions of their own in the instrumented source): left out of the model's Python log
+    unwrapped = _unwrapped_ids(li["expr"])
     if "exc" in py:
         view["py"] = ["exc", py["exc"]]
     else:
-        view["py"] = ["ok", render(py["value"]), [[i, render(v)] for i, v in py["log"]]]
+        view["py"] = ["ok", render(py["value"]), [[i, render(v)] for i, v in py["log"] if i not in unwrapped]]
     vis = mo["visit"]
     view["visit_out"] = vis["out"]
     rec = {}
@@ -262,6 +308,8 @@ def project(case, obs):
     if case.get("dom") in ("hashseed", "batchorder"):
         return "untied"
     li, _objs = lean_input(case)
+    if left_fragment(case):
+        li = None
     si = scan_input(case)
     if obs is None or (li is None and si is None):
         return "untied"
@@ -704,6 +752,17 @@ def kinds_key(case):
     return (tuple(kinds), case.get("layout", "oneline"))
 
 
+def _form_kinds(e, acc):
+    if isinstance(e, dict) and "k" in e:
+        acc.add(e["k"])
+        for v in e.values():
+            _form_kinds(v, acc)
+    elif isinstance(e, list):
+        for v in e:
+            _form_kinds(v, acc)
+    return acc
+
+
 def stats(case, mos, io, dist):
     if case.get("dom") == "batchorder":
         dist["batchorder_cases"] += len(case["cases"]) * len(case["orders"])
@@ -714,7 +773,13 @@ def stats(case, mos, io, dist):
         return
     dist["layout:" + case.get("layout", "oneline")] += 1
     _e, _alls = split_mos(mos)
-    dist["tied_to_model:%s" % bool(_e)] += 1
+    dist["tied_to_model:%s" % bool(_e and not left_fragment(case))] += 1
+    if _e and not left_fragment(case):
+        li, _o = lean_input(case)
+        for kind in sorted(_form_kinds(li["expr"], set())):
+            dist["tied_form:" + kind] += 1
+    elif _e:
+        dist["left_the_fragment_at_run_time"] += 1
     if _alls:
         dist["all_calls_decided_by_model"] += len(_alls)
     if io.get("scans") and scan_input(case) is not None:
